@@ -258,7 +258,8 @@ class Smsc:
             if st is None:
                 return
             self.msgid += 1
-            body = (('id%d' % self.msgid).encode() + b'\x00') if st == 0 else b'\x00'
+            # on an error status the body may be left out altogether (SMPP 3.4 4.4.2): every other error response is header-only
+            body = (('id%d' % self.msgid).encode() + b'\x00') if st == 0 else (b'\x00' if seq % 2 else b'')
             self.later(self.submit_delay(seq), conn.feed, pdu(0x80000004, st, seq, body))
         elif cmd == 0x15:
             d = self.enquire(conn, seq)
